@@ -39,6 +39,9 @@ func genStandard(env *Env, prop string, opaque bool, extra func(ex *symex.Exec, 
 	sem := make(chan struct{}, 8)
 	for i, fc := range fcs {
 		fn := env.Prog.Func(fc.Rel, fc.Name)
+		if inst := fc.Opts["instance"]; inst != "" {
+			fn = env.Prog.Instance(fc.Rel, fc.Name, inst)
+		}
 		if fn == nil {
 			g.OutOfDate = append(g.OutOfDate, fc.Rel+":"+fc.Name)
 			continue
